@@ -159,7 +159,7 @@ func cmdCheck(argv []string) int {
 		fmt.Fprintf(os.Stderr, "no harness serves %s\n", id)
 		return 2
 	}
-	order := []string{"z3-new", "z3", "cvc5"}
+	order := []string{"z3-new", "cvc5"}
 	timeout := 20
 	if tier == "thorough" {
 		timeout = 60
@@ -211,6 +211,7 @@ func cmdCheck(argv []string) int {
 			// avoided; queries are still on disk
 			ropt := opt
 			ropt.timeoutS = timeout * 3
+			ropt.order = []string{"z3-new", "z3", "cvc5"}
 			resolveFromFiles(retry, ropt)
 		}
 		for _, o := range r.Obls {
